@@ -413,7 +413,6 @@ def search(rng, tier, deep):
     o = Oracle(mods)
     full = deep or tier == "thorough"
     o.targets()
-    o.anchors()
     o.leap_days()
     # positions: random epochs in -2000..4000 plus the ends
     npos = 1500 if full else 250
@@ -431,6 +430,7 @@ def search(rng, tier, deep):
     years = sorted(set(years))
     for y in years:
         o.sweep_year(y, check_events=True)
+    o.anchors()      # last: the sweep findings above carry a full replay command
     stats = {"evaluations": o.n, "distinct_nontrivial": o.nontriv,
              "rule": ("%d instants in -2000..4000 (envelopes, parallax, daily motion, illuminated fraction vs geometry, node/perigee rates); "
                       "every calendar day of the years %s x 10 finder/target pairs (totality, never backwards, spacing, 1.6/2.0 months from the query; "
